@@ -637,7 +637,7 @@ func c15Kern(r *run.Run) {
 	vals := []int16{-50, 0, 30}
 	pairKeys := [][2]uint16{{1, 2}, {2, 1}, {1, 1}}
 	r.Explore(explore.Config{Name: "C15.kern"},
-		"fonts carrying only a legacy kern table: 1..2 format-0 subtables x coverage flags {horizontal, +minimum, +override, vertical, +cross-stream} x all assignments of {absent,-50,0,30} to 3 glyph pairs: every pair of the laid-out string is adjusted by exactly the value the kern specification defines; the same with a GDEF table that makes one glyph a mark (pairs around and between marks are kerned like any other)",
+		"fonts carrying only a legacy kern table: 1..2 format-0 subtables x coverage flags {horizontal, +minimum, +override, vertical, +cross-stream} x all assignments of {absent,-50,0,30} to 3 glyph pairs: every pair of the laid-out string is adjusted by exactly the value the kern specification defines, for two languages and whatever optional positioning features the caller asks for (default, none, mark and mkmk); the same with a GDEF table that makes one glyph a mark (pairs around and between marks are kerned like any other)",
 		func(c *explore.Ctx) {
 			withGdef := c.Bool("GDEF with a mark glyph")
 			ns := 1 + c.Choose(2, "subtables")
@@ -673,30 +673,38 @@ func c15Kern(r *run.Run) {
 				return
 			}
 			c.Outcome(fmt.Sprint(desc))
-			lay, err := f.NewLayouter(language.English, nil, nil)
-			if err != nil {
-				c.Fail("C15.kern", "NewLayouter", "%v", err)
-				return
-			}
 			c.Nontrivial()
-			for _, s := range strs {
-				got := lay.Layout(s)
-				rs := []rune(s)
-				if len(got) != len(rs) {
-					c.Fail("C15.kern", "glyph count", "Layout(%q) gives %d glyphs", s, len(got))
+			// "kerns every pair": for every language and whatever optional positioning features the caller asks for
+			type env struct {
+				lang language.Tag
+				sw   map[string]bool
+			}
+			envs := []env{{language.English, nil}, {language.English, map[string]bool{}}, {language.Turkish, map[string]bool{"mark": true, "mkmk": true}}}
+			for _, e := range envs {
+				lay, err := f.NewLayouter(e.lang, nil, e.sw)
+				if err != nil {
+					c.Fail("C15.kern", "NewLayouter", "%v", err)
 					return
 				}
-				for i := range rs {
-					want := 600
-					if withGdef && rs[i] == 'C' {
-						want = 0 // a mark glyph gets no advance width
-					}
-					if i+1 < len(rs) {
-						want += refKern(subs, uint16(rs[i]-'A'+1), uint16(rs[i+1]-'A'+1))
-					}
-					if int(got[i].Advance) != want || got[i].XOffset != 0 || got[i].YOffset != 0 {
-						c.Fail("C15.kern", "pair value", "Layout(%q): glyph %d has advance %d offsets (%d,%d), the kern table defines advance %d; subtables %v", s, i, got[i].Advance, got[i].XOffset, got[i].YOffset, want, desc)
+				for _, s := range strs {
+					got := lay.Layout(s)
+					rs := []rune(s)
+					if len(got) != len(rs) {
+						c.Fail("C15.kern", "glyph count", "Layout(%q) gives %d glyphs", s, len(got))
 						return
+					}
+					for i := range rs {
+						want := 600
+						if withGdef && rs[i] == 'C' {
+							want = 0 // a mark glyph gets no advance width
+						}
+						if i+1 < len(rs) {
+							want += refKern(subs, uint16(rs[i]-'A'+1), uint16(rs[i+1]-'A'+1))
+						}
+						if int(got[i].Advance) != want || got[i].XOffset != 0 || got[i].YOffset != 0 {
+							c.Fail("C15.kern", "pair value", "Layout(%q) for language %v with the positioning features %v: glyph %d has advance %d offsets (%d,%d), the kern table defines advance %d; subtables %v", s, e.lang, e.sw, i, got[i].Advance, got[i].XOffset, got[i].YOffset, want, desc)
+							return
+						}
 					}
 				}
 			}
